@@ -76,12 +76,68 @@ def reference_classes():
 # ------------------------------------------------------------------ the rule
 
 
+def _drop_weight_guard(fn: ast.FunctionDef, w: str) -> ast.FunctionDef:
+    """`w * where(w > 0, y, 0)` = `w * y` on the property's domain (w >= 0, y finite): where w > 0 the selection is y, where w = 0 both sides
+    are 0. (The guard only matters for non-finite y at zero-weight cells, which C02 - not C01 - speaks about.) Rewritten on a copy."""
+    import copy
+    fn = copy.deepcopy(fn)
+
+    def guarded(e):
+        if isinstance(e, ast.Call) and ast.unparse(e.func) in ("where", "np.where", "numpy.where") and len(e.args) == 3 and not e.keywords:
+            c, a, b = e.args
+            if isinstance(c, ast.Compare) and len(c.ops) == 1 and isinstance(b, ast.Constant) and not isinstance(b.value, bool) and b.value == 0:
+                l, r = c.left, c.comparators[0]
+                if isinstance(c.ops[0], (ast.Gt, ast.NotEq)) and isinstance(l, ast.Name) and l.id == w and isinstance(r, ast.Constant) and r.value == 0:
+                    return a
+                if isinstance(c.ops[0], ast.Lt) and isinstance(r, ast.Name) and r.id == w and isinstance(l, ast.Constant) and l.value == 0:
+                    return a
+        return None
+
+    class T(ast.NodeTransformer):
+        def visit_BinOp(self, node):
+            self.generic_visit(node)
+            if isinstance(node.op, ast.Mult):
+                for x, y_ in ((node.left, node.right), (node.right, node.left)):
+                    g = guarded(y_)
+                    if isinstance(x, ast.Name) and x.id == w and g is not None:
+                        return ast.copy_location(ast.BinOp(left=x, op=ast.Mult(), right=g), node)
+            return node
+    fn = ast.fix_missing_locations(T().visit(fn))
+    # an elementwise product of two parameter arrays kept in a vector (`wy = w * y`, read as `wy[i]`) is the product of the elements
+    pars = {a.arg for a in fn.args.args}
+    prods = {}
+    for st in fn.body:
+        if isinstance(st, ast.Assign) and len(st.targets) == 1 and isinstance(st.targets[0], ast.Name) and isinstance(st.value, ast.BinOp) \
+                and isinstance(st.value.op, ast.Mult) and isinstance(st.value.left, ast.Name) and isinstance(st.value.right, ast.Name) \
+                and {st.value.left.id, st.value.right.id} <= pars and st.value.left.id != st.value.right.id:
+            prods[st.targets[0].id] = (st, st.value.left.id, st.value.right.id)
+    for v, (st, a, b) in list(prods.items()):
+        stores = [n for n in ast.walk(fn) if isinstance(n, ast.Name) and n.id == v and isinstance(n.ctx, ast.Store)]
+        loads = [n for n in ast.walk(fn) if isinstance(n, ast.Name) and n.id == v and isinstance(n.ctx, ast.Load)]
+        subs = [n for n in ast.walk(fn) if isinstance(n, ast.Subscript) and isinstance(n.value, ast.Name) and n.value.id == v]
+        if len(stores) != 1 or len(loads) != len(subs) or any(not isinstance(n.ctx, ast.Load) for n in subs):
+            continue
+
+        class S(ast.NodeTransformer):
+            def visit_Subscript(self, node):
+                self.generic_visit(node)
+                if isinstance(node.value, ast.Name) and node.value.id == v and isinstance(node.ctx, ast.Load):
+                    return ast.copy_location(ast.BinOp(left=ast.Subscript(value=ast.Name(id=a, ctx=ast.Load()), slice=copy.deepcopy(node.slice), ctx=ast.Load()),
+                                                       op=ast.Mult(),
+                                                       right=ast.Subscript(value=ast.Name(id=b, ctx=ast.Load()), slice=copy.deepcopy(node.slice), ctx=ast.Load())), node)
+                return node
+        fn.body = [x for x in fn.body if x is not st]
+        fn = ast.fix_missing_locations(S().visit(fn))
+    return fn
+
+
 def analyse(repo: Repo):
     """Collect the store table of ws2d with roles resolved. Returns dict used by C01/C06."""
     fn = repo.func(MOD, "ws2d")
     params = [a.arg for a in fn.args.args]
     if len(params) < 3:
         raise AnalysisError(f"missing anchor: ws2d(y, lmda, w) parameters in {FILE}")
+    fn = _drop_weight_guard(fn, params[2])
     pren = {params[0]: Rat.atom("y"), params[1]: Rat.atom("lmda"), params[2]: Rat.atom("w")}
 
     def collect(extra_env):
